@@ -1135,20 +1135,72 @@ def rule_tag_resolution(model):
     return r
 
 
-def rule_all(model):
+def rule_single_descent(model):
+    r = RuleResult('C06.R12', 'compiling is polynomial in the nesting '
+                   'depth: in a mutually recursive group of the compiler '
+                   'each function has a single call site that leads back '
+                   'into the group (the routine that skips a nested block '
+                   'while its parent looks for its end tag does not compile '
+                   'it: two descents per level double the work at every '
+                   'level)')
     cg = _cg(model)
-    if cg.registry.problems:
-        # everything else depends on a resolvable registry
-        return [rule_registry(model)]
-    out = [rule_regex(model), rule_raise(model)]
-    out += rule_partial(model)
-    out += [rule_location(model), rule_recursion(model),
-            rule_registry(model), rule_prefix_grammar(model),
-            rule_block_context(model), rule_tag_resolution(model)]
-    return out
+    comp = model._dt_compile
+    n = 0
+    for c in cg.sccs(comp):
+        if len(c) < 2:
+            continue
+        group = set(c)
+        for w in c:
+            fi = cg.funcs[w]
+            sites = []
+            for x in own_nodes(fi.node):
+                if not isinstance(x, ast.Call):
+                    continue
+                tg = set()
+                for t in model.resolve_callee(x.func, fi):
+                    if t[0] == 'func':
+                        tg.add(t[1].where)
+                    elif t[0] == 'method':
+                        c2 = [g for g in model.all_funcs()
+                              if g.cls is not None and g.name == t[1]
+                              and g.parent is None]
+                        if len(c2) == 1:
+                            tg.add(c2[0].where)
+                if any(group & cg.reachable([y]) for y in tg):
+                    sites.append(x)
+            n += 1
+            r.instance(w, ' ; '.join(norm(x.func) for x in sites),
+                       f'{len(sites)} descent(s)')
+            if len(sites) > 1:
+                r.finding(w, 'descents: ' + ' ; '.join(
+                    sorted(norm(x.func) for x in sites)),
+                    f'{len(sites)} call sites of {w} lead back into the '
+                    f'recursive group {sorted(group)}: a nested block is '
+                    'worked through more than once per level, the cost '
+                    'doubles with every nesting level (a 30-deep nesting '
+                    'does not finish)', node=sites[1], ctx=fi)
+    if n < 2:
+        raise AnalysisError('C06.R12: the mutually recursive parser group '
+                            '(parse / parse_block) was not found')
+    return r
 
 
-RULES = [rule_all]
+def _needs_registry(rule):
+    """Everything except R6 depends on a resolvable tag registry."""
+    def run(model):
+        cg = _cg(model)
+        if cg.registry.problems:
+            raise AnalysisError(f'{rule.__name__}: the tag registry does '
+                                'not resolve (see C06.R6)')
+        return rule(model)
+    run.__name__ = rule.__name__
+    return run
+
+
+RULES = [rule_registry] + [_needs_registry(r_) for r_ in (
+    rule_regex, rule_raise, rule_partial, rule_location, rule_recursion,
+    rule_prefix_grammar, rule_block_context, rule_tag_resolution,
+    rule_single_descent)]
 EXPLANATION = (
     'Regex automata (EDA criterion on the self-product of the pattern NFA) '
     'for every constant pattern of the compile phase; raise/handler '
